@@ -317,6 +317,10 @@ def _value(draw, kind, unit):
         ft = {"range": abs(mag) * 15.0 + 30.0, "step": abs(mag) * 2.0 + 5.0, "gstep": abs(mag) / 40.0 + 0.1}[kind]
         val = ref.convert(ft, "Foot", unit)
         return -val if special == "neg" and kind != "step" else val
+    if kind == "temp" and draw(st.booleans()):
+        # numbers that are a library default or a fixed point *in some other temperature unit* (15 C = 59 F = 288.15 K =
+        # 518.67 R, freezing, -40): a bare number must not be recognised by its value before it is read in the preferred unit
+        return draw(st.sampled_from([59.0, 59.0, 15.0, 15.0, 288.15, 518.67, 32.0, 273.15, 491.67, -40.0, 0.0]))
     if kind == "temp":
         k = 273.15 + mag if special != "neg" else 273.15 + mag
         return ref.from_si(max(200.0, min(330.0, k)), unit) if draw(st.booleans()) else mag
